@@ -39,6 +39,8 @@ func runC08(c *Ctx) {
 	checkSigningWrite(c)
 	checkCommitNotRetained(c, "R8.9")
 	checkKeyCloneKeepsPrivate(c, "R8.10")
+	checkKeySetSizeIrrelevant(c, "R8.4")
+	checkValidateAccumulatesAfterTest(c, "R9.4")
 }
 
 func checkValidKeysAtTime(c *Ctx) {
